@@ -55,9 +55,28 @@ def assignSlots (res : List Slot) : List Slot → List Nat → Except LErr (List
   | s :: ss, p :: ps => if p < res.length then assignSlots (res.set p s) ss ps else .error .indexError
   | _, _ => .error .valueError
 
-/-- `_map_substrates_to_labelmap` -/
+/-- `_map_substrates_to_labelmap` (no longer called by `build_model`; kept by the repo because a unit
+    test pins its output, and here because `C16_linear_reading` states what it computes) -/
 def mapSubstratesToLabelmap (subs : List Slot) (labelmap : List Nat) : Except LErr (List Slot) :=
   assignSlots (List.replicate subs.length Slot.ext) subs labelmap
+
+/-- the comprehension of `_map_labelmap_to_substrates`: `[substrates[pos] for _, pos in
+    zip(substrates, labelmap, strict=True)]` (an index outside `substrates` raises `IndexError` when
+    reached; a length mismatch raises `ValueError` once the shorter operand is exhausted) -/
+def pickSlots (subs : List Slot) : List Slot → List Nat → Except LErr (List Slot)
+  | [], [] => .ok []
+  | _ :: ss, p :: ps =>
+    match subs[p]? with
+    | some s => do
+      let rest ← pickSlots subs ss ps
+      pure (s :: rest)
+    | none => .error .indexError
+  | _, _ => .error .valueError
+
+/-- `_map_labelmap_to_substrates` (repo commit "fix: LinearLabelMapper.build_model reads a label map
+    like LabelMapper ..."): product position `i` is built from substrate position `labelmap[i]` -/
+def mapLabelmapToSubstrates (subs : List Slot) (labelmap : List Nat) : Except LErr (List Slot) :=
+  pickSlots subs subs labelmap
 
 /-- one per-position reaction `f"{rxn}__{i}"`: rate `_relative_label_flux(substrate, rxn)`,
     stoichiometry `{substrate: -1/conc, product: +1/conc}` without the `EXT` entries -/
@@ -84,7 +103,7 @@ def linRxnsOf (isos : List (Name × List Slot)) (baseRxns : List (Name × List (
     let subs ← slotsOf isos (dupList s)
     let prods ← slotsOf isos (dupList p)
     let (subs, prods) ← addInfluxEfflux subs prods labelmap
-    let subs ← mapSubstratesToLabelmap subs labelmap
+    let subs ← mapLabelmapToSubstrates subs labelmap
     pure (slotRxns rxn 0 subs prods)
 
 /-- `variables[f"{base}__{pos}"] = v`: in place if present, else appended -/
